@@ -166,6 +166,8 @@ def worker_main(prop, name, tier, outfile):
                      {"kind": "import", "args": {"module": modname}})
         else:
             rep.unknown("harness exception: %s: %s" % (type(e).__name__, e), traceback.format_exc()[-2500:])
+    for a in core.ABORTS[:20]:
+        rep.unknown("path not covered: %s" % a)
     d = rep.as_dict(core.STATS.as_dict(), time.time() - t0)
     with open(outfile, "w") as f:
         json.dump(d, f)
